@@ -65,7 +65,7 @@ Fixpoint replace_node (old new : str) (k : anode) : res (list anode) :=
       | Some (c :: tx) =>
           if contains old (c :: tx) then
             wuri <- of_opt KeyError (e_wuri e) ;;
-            let lines := splitlines (replace old new (c :: tx)) in
+            let lines := split_nl (replace old new (c :: tx)) in
             Ok (interleave (br_of e wuri) (map (fun l => AE (with_text e l) eks) lines))
           else eks' <- kids' ;; Ok [AE e eks']
       | _ => eks' <- kids' ;; Ok [AE e eks']
